@@ -7,9 +7,16 @@
 (*                 limit L in 0..N*MaxV+1 (L plays the role of 1-alpha);                *)
 (* Start = "Mask": every region mask on the grid enters directly at Erode (the          *)
 (*                 boundary part does not depend on how the region was selected).       *)
+(* Start = "Holes": the whole grid minus any subset of its inner block (cells at least  *)
+(*                 two cells away from every border): regions with holes whose inner    *)
+(*                 and outer boundary are separate pieces (needs a 7 x 7 grid, where    *)
+(*                 enumerating all masks is out of reach).                               *)
 (* Deviations switched on by constants (mutation configs, must violate an invariant):   *)
 (*   Strict = TRUE : prefix with cum <  L instead of cum <= L                           *)
 (*   Cross  = TRUE : erosion / labelling with the 2n axis neighbours instead of 3^n-1   *)
+(*   LabelBoundary = TRUE : the connected pieces of the BOUNDARY are labelled instead of *)
+(*                   the regions (the code before fix 87ce4d1): a region with a hole     *)
+(*                   comes back as two coordinate sets                                   *)
 (*   Close  = TRUE : "limit not reachable" only when the total misses the limit by more *)
 (*                   than one unit (a tolerance in the comparison cum[-1] < limit): a   *)
 (*                   grid that falls just short is returned whole without a warning     *)
@@ -18,7 +25,7 @@ EXTENDS HDCOps
 CONSTANTS S1, S2, S3,   \* grid shape <<S1, S2, S3>>; S3 = 0: 2-D <<S1, S2>>; S2 = 0: 1-D <<S1>>
           MaxV,         \* cell probabilities 0..MaxV
           Start,        \* "P" or "Mask"
-          Strict, Cross, Close
+          Strict, Cross, Close, LabelBoundary
 
 VARIABLES pc, P, L, order, cum, R, last, warned, hdc, sets
 vars == <<pc, P, L, order, cum, R, last, warned, hdc, sets>>
@@ -29,6 +36,9 @@ All == 1..N
 Full == Offsets(Len(Shape))                        \* what the property prescribes
 Struct == IF Cross THEN CrossOffsets(Len(Shape)) ELSE Full    \* what the algorithm uses
 
+InnerBlock == {c \in All : \A d \in 1..Len(Shape) :
+                  LET x == Coord(c, Shape, Strides(Shape), d) IN 2 <= x /\ x <= Shape[d] - 3}
+
 Init ==
     /\ order = <<>> /\ cum = <<>> /\ hdc = {} /\ sets = <<>>
     /\ \/ /\ Start = "P"
@@ -38,6 +48,10 @@ Init ==
        \/ /\ Start = "Mask"
           /\ P = [c \in All |-> 0] /\ L = 0
           /\ R \in SUBSET All
+          /\ pc = "selected" /\ last = 0 /\ warned = FALSE
+       \/ /\ Start = "Holes"
+          /\ P = [c \in All |-> 0] /\ L = 0
+          /\ R \in {All \ H : H \in SUBSET InnerBlock}
           /\ pc = "selected" /\ last = 0 /\ warned = FALSE
 
 (* np.argsort(flat, kind="mergesort")[::-1] *)
@@ -83,10 +97,13 @@ Erode ==
     /\ pc' = "eroded"
     /\ UNCHANGED <<P, L, order, cum, R, last, warned, sets>>
 
-(* ndi.label(HDC, structure); one coordinate set per label, cells in raster order *)
+(* ndi.label(HDR, structure); one coordinate set per region label: the boundary cells that *)
+(* carry the label, cells in raster order                                                 *)
 Label ==
     /\ pc = "eroded"
-    /\ sets' = ComponentsSeq(hdc, Shape, Struct)
+    /\ sets' = IF LabelBoundary THEN ComponentsSeq(hdc, Shape, Struct)
+               ELSE LET regs == ComponentsSeq(R, Shape, Struct)
+                    IN [i \in 1..Len(regs) |-> regs[i] \cap hdc]
     /\ pc' = "done"
     /\ UNCHANGED <<P, L, order, cum, R, last, warned, hdc>>
 
@@ -124,11 +141,11 @@ CoordsAreBoundary == Done => Coords = BoundaryDef(MaskOf(R, N), Shape, Full)
 EachOnce == Done => /\ \A i, j \in 1..Len(sets) : i # j => sets[i] \cap sets[j] = {}
                     /\ SumSeq([i \in 1..Len(sets) |-> Cardinality(sets[i])]) = Cardinality(Coords)
 SetsDoNotMixRegions == Done => \A i \in 1..Len(sets) : \E K \in RegionComps : sets[i] \subseteq K
-(* every set is one whole connected piece of the boundary: connected, and no two sets touch *)
-SetsAreComponents ==
-    Done => /\ \A i \in 1..Len(sets) :
-                 sets[i] # {} /\ ComponentOf(LeastOf(sets[i]), sets[i], Shape, Full) = sets[i]
-            /\ \A i, j \in 1..Len(sets) : i # j => ~Touch(sets[i], sets[j], Shape, Full)
+(* one coordinate set per region: the boundary cells of that region (a region with a hole  *)
+(* has a boundary of several pieces - they belong to one set)                             *)
+OneSetPerRegion ==
+    Done => /\ Range(sets) = {K \cap BoundaryDef(MaskOf(R, N), Shape, Full) : K \in RegionComps}
+            /\ Len(sets) = Cardinality(RegionComps)
 (* every region component contributes at least one set (its boundary is never empty) *)
 EveryRegionHasASet == Done => \A K \in RegionComps : \E i \in 1..Len(sets) : sets[i] \subseteq K
 (* the large-grid formulations used by Trace_C15 agree with the definitions *)
@@ -137,10 +154,12 @@ FastIsDef ==
       /\ BoundaryFast(MaskOf(R, N), Shape, Full) = BoundaryDef(MaskOf(R, N), Shape, Full)
       /\ ComponentsFast(R, Shape, Full) = Components(R, Shape, Full)
       /\ ComponentsFast(hdc, Shape, Full) = Components(hdc, Shape, Full)
-(* the coordinate sets of Label are the notion Trace_C15 judges with (OneSetPerBoundaryPiece): *)
-(* the connected pieces, under the full neighbourhood, of the boundary of the region          *)
+(* the coordinate sets of Label are the notion Trace_C15 judges with (OneSetPerRegion),      *)
+(* computed there with the large-grid operators                                            *)
 LabelIsTraceNotion ==
-    Done /\ ~Cross => Range(sets) = ComponentsFast(BoundaryFast(MaskOf(R, N), Shape, Full), Shape, Full)
+    Done /\ ~Cross /\ ~LabelBoundary =>
+       Range(sets) = {K \cap BoundaryFast(MaskOf(R, N), Shape, Full) :
+                        K \in ComponentsOfMask(MaskOf(R, N), Shape, Full)}
 (* raster label order *)
 LabelOrder == Done => \A i \in 1..(Len(sets) - 1) : LeastOf(sets[i]) < LeastOf(sets[i + 1])
 
